@@ -13,7 +13,7 @@ ID = "C16"
 LEVEL = "exploration"
 TECHNIQUE = "bounded-exhaustive enumeration of optional-field sequences (by SAM tag type and punctuation class) through every re-serialising entry point, byte-level comparison"
 RULE = (
-    "tag alphabet of 30 well-formed fields by type (i: 0, -5, +3; f: 0.5, -0.5, .5, 1e-05, 3E+2; Z: alnum, one of _ # . - : * / % each, the remaining printable punctuation, interior "
+    "tag alphabet of 32 well-formed fields by type (i: 0, -5, +3; f: 0.5, -0.5, .5, 1e-05, 3E+2; Z: alnum, one of _ # . - : * / % each, the remaining printable punctuation, interior "
     "space, empty; A: P, *; B: i,1,-2 and f,0.5; H: 1AE3; two tag names with two types) + a repeated tag + ds:Z; every sequence of <=N fields (N=2 quick, 3 thorough) with the "
     "CIGAR field absent or at every position; read name with and without a space; through view -n, view -f stable (both also on a bgzip-compressed GAF), view -f unstable, realign "
     "(<=60 kb) and realign pass-through (>60 kb). evaluations = records re-emitted and judged; non-trivial = records with >=1 optional field."
@@ -39,6 +39,7 @@ ALPHA = [
     "ha:H:1AE3",
     "tp:A:P",
     "oc:Z:x4=4=y",  # contains the text of the input CIGAR used in realign mode
+    "ds:i:-42", "cg:i:7",  # the tag names the parser treats specially (ds:Z is dropped, cg:Z is the CIGAR), with another type
     "xa:f:1.5", "za:i:7",  # tag names that also occur with another type (xa:i, za:Z) in other records and in the same record
     "zk:Z:100%", "zm:Z:%s %d%%", "zn:Z:!\"$&'()+,;<=>?@[\\]^`{|}~",  # the remaining printable punctuation, '%' on its own
 ]
@@ -88,16 +89,16 @@ def judge_record(rin, rout, mode, converted):
     for i in same_cols:
         if a[i] != b[i]:
             bad.append(("column", f"column {i + 1}: {a[i]!r} -> {b[i]!r}"))
-    fin = [o for o in rin.opt if o[:2] not in ("cg", "ds")]
-    fout = [o for o in rout.opt if o[:2] not in ("cg", "ds")]
+    fin = [o for o in rin.opt if o[:5] not in ("cg:Z:", "ds:Z:")]
+    fout = [o for o in rout.opt if o[:5] not in ("cg:Z:", "ds:Z:")]
     if fin != fout:
         bad.append((classify(fin, fout), f"optional fields {rin.opt} came out as {rout.opt}"))
-    had_cg = any(o.startswith("cg:") for o in rin.opt)
-    out_cg = [o for o in rout.opt if o.startswith("cg:")]
+    had_cg = any(o.startswith("cg:Z:") for o in rin.opt)
+    out_cg = [o for o in rout.opt if o.startswith("cg:Z:")]
     if fin == fout and had_cg and len(out_cg) == 1:
         # the CIGAR may be rewritten, but it stays one of the fields "in the original order"
-        kin = [o[:5] for o in rin.opt if o[:2] != "ds"]
-        kout = [o[:5] for o in rout.opt if o[:2] != "ds"]
+        kin = [o[:5] for o in rin.opt if o[:5] != "ds:Z:"]
+        kout = [o[:5] for o in rout.opt if o[:5] != "ds:Z:"]
         if kin != kout:
             bad.append(("cg-moved", f"the CIGAR field changed its position among the optional fields: {rin.opt} -> {rout.opt}"))
     if out_cg and not had_cg and not mode.startswith("realign"):
@@ -106,8 +107,8 @@ def judge_record(rin, rout, mode, converted):
         bad.append(("cg-invented", f"pass-through record without CIGAR came out with {out_cg}"))
     if had_cg and not out_cg:
         bad.append(("cg-lost", "the CIGAR field of the input is missing from the output"))
-    ds_in = [o for o in rin.opt if o.startswith("ds:")]
-    ds_out = [o for o in rout.opt if o.startswith("ds:")]
+    ds_in = [o for o in rin.opt if o.startswith("ds:Z:")]
+    ds_out = [o for o in rout.opt if o.startswith("ds:Z:")]
     if ds_out and ds_out != ds_in:
         bad.append(("ds-changed", f"ds field {ds_in} came out as {ds_out}"))
     return bad
